@@ -712,7 +712,8 @@ theorem syncO_delFail (s : TK) (o : Owner) (ho : o ≠ "") (snap : Snapshot) :
     s.syncO o snap .delFail =
       if (emitFor s.t o snap (affected s.t o snap)).dels ≠ [] then
         (⟨s.t, applyEmit s.K ⟨(emitFor s.t o snap (affected s.t o snap)).ups, []⟩,
-          s.log ++ [(o, ⟨(emitFor s.t o snap (affected s.t o snap)).ups, []⟩)]⟩, .delFailed)
+          if (emitFor s.t o snap (affected s.t o snap)).ups.isEmpty then s.log
+          else s.log ++ [(o, ⟨(emitFor s.t o snap (affected s.t o snap)).ups, []⟩)]⟩, .delFailed)
       else s.syncO o snap .ok := by
   rw [syncO_ok s o ho]
   unfold TK.syncO syncOwner
